@@ -138,6 +138,34 @@ pub fn programs(tier: Tier) -> Vec<(Program, Mode)> {
             }
         }
     }
+    // two threads of one process sharing a sharded handle (and so its in-memory load estimates): one maintains a shard
+    // while the other writes into it and bumps its estimate, then stops for good
+    {
+        use crate::ops::Op;
+        use crate::props::e1::{api, planted};
+        use crate::world::{Size, Val};
+        let k0 = crate::ops::key_for_shards("k", 0, 1, 2);
+        let j1 = crate::ops::key_for_shards("j", 1, 0, 2);
+        let pre: Vec<crate::sched::Planted> = (0..2)
+            .flat_map(|s| (0..3).map(move |i| planted(&format!("{}/x{}{}", crate::ops::shard_dir_name(s), s, i), Val::new(10 + (3 * s + i) as u8, Size::One), i == 1, 20 - i as i64)))
+            .collect();
+        for (name, a, b) in [
+            ("put|put", Op::Put(k0.clone(), e1::wval(0, 0, Size::One)), Op::Put(j1.clone(), e1::wval(1, 0, Size::One))),
+            ("set|put", Op::Set(k0.clone(), e1::wval(0, 0, Size::One)), Op::Put(j1.clone(), e1::wval(1, 0, Size::One))),
+            ("set|set", Op::Set(k0.clone(), e1::wval(0, 0, Size::One)), Op::Set(j1.clone(), e1::wval(1, 0, Size::One))),
+        ] {
+            v.push((
+                Program {
+                    name: format!("shared-estimates-sharded-{}", name),
+                    cfg: e1::sharded_cfg(4),
+                    pre: pre.clone(),
+                    threads: e1::shared_handle(vec![vec![api(a)], vec![api(b)]], true),
+                    create_write_dir: true,
+                },
+                Mode::Bounded(2),
+            ));
+        }
+    }
     // entries stamped by a writer whose clock runs an hour ahead of ours (a shared directory, a clock stepped
     // back): whatever the timestamps say, nobody waits for the clock to catch up
     {
@@ -169,7 +197,7 @@ pub fn programs(tier: Tier) -> Vec<(Program, Mode)> {
 
 pub fn run(tier: Tier, shard: Shard, rep: &mut Report) {
     rep.rule = format!(
-        "C05's programs (maintenance on every write, adversary, missing directories), C04's curated programs, writers suspended for two hours, and \
+        "C05's programs (maintenance on every write, adversary, missing directories), C04's curated programs, two threads sharing one sharded handle (one maintains a shard while the other writes into it), writers suspended for two hours, and \
          lookups/writes on entries stamped an hour ahead of the local clock (or after the clock stepped back an hour); all schedules with <= 2 \
          preemptions (thorough: 3 for selected programs), which contain, for every schedule prefix with one preemption fewer, the run of \
          each participant alone to the end of its operation while every peer stays frozen at its current filesystem call. Monitors per \
